@@ -146,7 +146,8 @@ Singles(k) == {Lib1("polys", e) : e \in CTrapPolys(k) \cup TrapPolys(k) \cup Rec
               \cup {Lib1("paths", e) : e \in PathsV(k)} \cup {Lib1("labels", e) : e \in LabelsV(k)}
               \cup {Lib1("refs", e) : e \in RefsV(k)}
               \cup {AL(<<Circle(q), Sub, Leaf>>, PR0) : q \in 0..3}
-Libs == IF Depth = "thorough" THEN UNION {Singles(k) : k \in 0..13} \cup {MixedLib(k) : k \in 0..25}
+\* (thorough: 7 of the 14 palette rotations, chosen by the seed; every rotation is reachable by varying it)
+Libs == IF Depth = "thorough" THEN UNION {Singles((Seed + 2 * k) % 14) : k \in 0..6} \cup {MixedLib(k) : k \in 0..25}
         ELSE Singles(Seed % 14) \cup {MixedLib(k) : k \in {Seed % 26, (Seed + 9) % 26, (Seed + 17) % 26}}
 \* every library with detection on (shape records) and once with its rotating option set;
 \* the mixed library sweeps all 256 flag sets x levels x tolerances over the run
